@@ -199,6 +199,9 @@ def run(ctx):
                       "%s: items from %s reach the page without an is_hide_set filter (%s); sibling loops in the same module filter hidden items" % (
                           b.q.rsplit("::", 1)[1], c.callee_q.rsplit("::", 1)[1], det))
     res.floor("R19.3", "item iteration sites in clap_mangen", n, 8)
+    from rules.c12 import listing_filters
+    nlf = listing_filters(fx, res, "R19.3", r"^clap_mangen::")
+    res.floor("R19.3", "listing filters in clap_mangen", nlf, 8)
 
     # ---- R19.4 PANIC + DET
     pubs = [b for b in mg.bodies if b.d.get("vis") == "Public" and b.kind != "Closure"]
